@@ -179,3 +179,50 @@ func keyText(k reflect.Value) string {
 	}
 	return fmt.Sprintf("%v", k)
 }
+
+// MaxList returns the length of the longest list part (a slice of configuration values,
+// i.e. of an interface type) reachable from root, without rendering anything.
+func MaxList(root interface{}) int {
+	seen := map[uintptr]bool{}
+	max := 0
+	var walk func(v reflect.Value, depth int)
+	walk = func(v reflect.Value, depth int) {
+		if !v.IsValid() || depth > 200 {
+			return
+		}
+		switch v.Kind() {
+		case reflect.Ptr:
+			if v.IsNil() || seen[v.Pointer()] {
+				return
+			}
+			seen[v.Pointer()] = true
+			walk(v.Elem(), depth+1)
+		case reflect.Interface:
+			if !v.IsNil() {
+				walk(v.Elem(), depth+1)
+			}
+		case reflect.Struct:
+			for i := 0; i < v.NumField(); i++ {
+				walk(v.Field(i), depth+1)
+			}
+		case reflect.Map:
+			it := v.MapRange()
+			for it.Next() {
+				walk(it.Value(), depth+1)
+			}
+		case reflect.Slice:
+			if v.Type().Elem().Kind() == reflect.Interface && v.Len() > max {
+				max = v.Len()
+			}
+			n := v.Len()
+			if n > 4096 {
+				n = 4096 // the length is what matters; do not walk millions of padding entries
+			}
+			for i := 0; i < n; i++ {
+				walk(v.Index(i), depth+1)
+			}
+		}
+	}
+	walk(reflect.ValueOf(root), 0)
+	return max
+}
